@@ -173,6 +173,51 @@ Section Transport.
     else let '(w2, now) := t_now T w1 in (add64 now (mul64 t1 (w64 n)), w2, 0).
 End Transport.
 
+(* ------------------------------------------------------------------ socket wrappers (udp.go, tls_utils.go) *)
+
+(* copy(dst, src): the new contents of dst *)
+Definition go_copy (dst src : list N) : list N :=
+  let k := Nat.min (length dst) (length src) in firstn k src ++ skipn k dst.
+Definition go_copy_n (dst src : list N) : N := N.of_nat (Nat.min (length dst) (length src)).
+
+Section Wrappers.
+  (* the wrapped socket: [t_readfull T w n] stands for sock.Read(buf) with len(buf) = n *)
+  Variable T : tworld.
+
+  (* what a Read guarantees: bytes, at most len(buf) of them *)
+  Definition tread_wf : Prop :=
+    forall w n, let '(_, got, _) := t_readfull T w n in bytesb got = true /\ lenN got <= n.
+
+  (* one part of (usw *udpSockWrapper) Read: [avail] bytes at the front of rxbuf go to buf,
+     what does not fit moves to the front of rxbuf: new leftoverCount, rxbuf, buf, bytes copied *)
+  Definition t_udp_take (avail : N) (rxbuf buf : list N) : N * list N * list N * N :=
+    let src := firstn (N.to_nat avail) rxbuf in
+    let k := go_copy_n buf src in
+    let rxbuf' := if k <? avail then go_copy rxbuf (skipn (N.to_nat k) src) else rxbuf in
+    (avail - k, rxbuf', go_copy buf src, k).
+
+  (* (usw *udpSockWrapper) Read(buf): leftoverCount, rxbuf, buf, world, rlen, error value *)
+  Definition t_udp_read (left : N) (rxbuf buf : list N) (w : val) : N * list N * list N * val * N * N :=
+    if 0 <? left then
+      let '(left', rxbuf', buf', k) := t_udp_take left rxbuf buf in (left', rxbuf', buf', w, k, 0)
+    else
+      let '(w1, got, e) := t_readfull T w (lenN rxbuf) in
+      let rx1 := got ++ skipn (length got) rxbuf in
+      if negb (e =? 0) then (left, rx1, buf, w1, lenN got, e)
+      else let '(left', rxbuf', buf', k) := t_udp_take (lenN got) rx1 buf in (left', rxbuf', buf', w1, k, 0).
+
+  (* (tsw *tlsSockWrapper) Read(buf): buf, world, rlen, error value *)
+  Definition t_tls_read (buf : list N) (w : val) : list N * val * N * N :=
+    let '(w1, got, e) := t_readfull T w (lenN buf) in
+    (got ++ skipn (length got) buf, w1, lenN got, e).
+
+  (* (tsw *tlsSockWrapper) Write(buf): after a write that timed out ([tmo_code]:
+     the error values for which os.IsTimeout holds) the socket is closed *)
+  Definition t_tls_write (tmo_code : N) (buf : list N) (w : val) : val * N * N :=
+    let '(w1, n, e) := t_write T w buf in
+    if andb (negb (e =? 0)) (e =? tmo_code) then (fst (t_close T w1), n, e) else (w1, n, e).
+End Wrappers.
+
 (* ------------------------------------------------------------------ worlds that are byte streams *)
 
 Fixpoint unbytes (l : list val) : list N :=
